@@ -218,7 +218,7 @@ def lossless(ctx, cfg, fs):
                 ctx.look(b)
     # value path functions contain no lossy call at all
     for rx in (r'State>::take_arg$', r'State>::take_positional_word$', r'^params::parse_pos_word$', r'ParseArgument::<T>::take_argument$', r'^<params::ParseArgument<T> as Parser<T>>::eval$', r'^<params::ParsePositional<T> as Parser<T>>::eval$', r'^args::inner::State::construct$', r'^args::disambiguate_short$', r'^arg::split_os_argument$'):
-        b = ctx.look(fs.one(rx))
+        b = ctx.look(fs.host(rx, r'State>::take_positional_word$') if 'parse_pos_word' in rx else fs.one(rx))
         bad = [c.name for x in fs.family(b) for c in x.calls() if c.is_(*LOSSY)]
         ctx.ob('L.lossless', 'value-path:%s' % short(b.path), not bad, '%s (on the path of values) performs no lossy or normalising conversion: %s' % (short(b.path), bad or 'none'), where=b.where(), cfg=cfg)
     # take_arg returns a clone of the payload
